@@ -285,6 +285,9 @@ fn cmd_conc(args: &[String]) {
     let mut samples = vec![];
     let (mut contended, mut with_resize, mut with_tree) = (0usize, 0usize, 0usize);
     for i in first..first + cases {
+        if sched::STUCK_OUTSIDE_HOOKS.load(std::sync::atomic::Ordering::SeqCst) >= 3 {
+            break; // every such run costs the watchdog's patience and leaks its threads
+        }
         let cseed = only.unwrap_or(seed.wrapping_mul(0x9E3779B97F4A7C15).wrapping_add(i as u64));
         let mode = arg(args, "--mode").unwrap_or("mixed".into());
         let case = if mode == "scenario" {
